@@ -331,12 +331,13 @@ def dump_leg(p, cfg, keys):
     return res
 
 
-def run_case(case, scratch):
-    enums = {}
+def build_parser(case, enums, scratch, with_cfg):
+    from jsonargparse import ActionConfigFile
+
     p = ArgumentParser(exit_on_error=False)
-    keys = []
-    seeds = set()
-    seen = {"defaults": []}
+    keys, seeds, seen = [], set(), {"defaults": []}
+    if with_cfg:
+        p.add_argument("--cfg", action=ActionConfigFile)
     for d in case["decls"]:
         ty = build_type(d["ty"], enums, scratch)
         kw = {}
@@ -348,8 +349,36 @@ def run_case(case, scratch):
             seen["defaults"].append(["none"])
         if d.get("default", ["none"])[0] == "lazy":
             seen["defaults"][-1] = ["none"]
+        if d.get("enable_path"):
+            kw["enable_path"] = True
         p.add_argument("--" + d["key"], type=ty, **kw)
         keys.append(d["key"])
+    return p, keys, seeds, seen
+
+
+def run_case(case, scratch):
+    enums = {}
+    for name, content in (case.get("files") or {}).items():
+        os.makedirs(os.path.dirname(name) or ".", exist_ok=True)
+        with open(name, "w") as f:
+            f.write(content)
+    try:
+        return run_case_(case, scratch, enums)
+    finally:
+        for name in case.get("files") or {}:
+            with contextlib.suppress(OSError):
+                os.remove(name)
+
+
+def run_case_(case, scratch, enums):
+    if case.get("pre") is not None:
+        # an earlier, FAILED call in the same process (another parser of the same shape): it must leave nothing behind
+        try:
+            with contextlib.redirect_stderr(io.StringIO()), contextlib.redirect_stdout(io.StringIO()):
+                build_parser(case, {}, scratch, True)[0].parse_args(list(case["pre"]))
+        except BaseException:  # noqa: B902
+            pass
+    p, keys, seeds, seen = build_parser(case, enums, scratch, case.get("channel") == "cfgfile")
     if case["kind"] == "ns":
         obj = copy.deepcopy(decode(case["obj"], enums))      # the very object handed over: its sets' iteration order is what counts
         seen["obj"] = encode(obj, True)
@@ -360,7 +389,7 @@ def run_case(case, scratch):
         if ch == "object":
             obj = decode(inp, enums)
             first, cfg = attempt(lambda: p.parse_object(copy.deepcopy(obj)), keys)
-        elif ch == "args":
+        elif ch in ("args", "cfgfile"):
             first, cfg = attempt(lambda: p.parse_args(list(inp)), keys)
         else:
             first, cfg = attempt(lambda: p.parse_string(inp), keys)
